@@ -18,8 +18,18 @@ def build_history(rng, oid, kind, nops, with_stats=True, op_filter=None, freq=No
         nw = int(rng.integers(2, 9))
         rows_per_az = [hvgen.gen_curve_set(rng, freq, nw) for _ in range(naz)]
         azs = sorted(float(a) for a in rng.choice(np.arange(0, 180, 5), naz, replace=False))
+        if naz > 1 and rng.random() < 0.2:
+            # both inclusive ends of the legal range (np.linspace(0, 180, n)), or one direction measured twice: every entry of the list is an azimuth of its
+            # own for the statistics (the number of azimuths is the length of the list)
+            if naz < 3 or rng.random() < 0.6:
+                azs[0], azs[-1] = 0.0, 180.0
+            else:
+                # never next to each other: two ADJACENT equal azimuths are merged by the unchanged reader (known finding C12-d, witnessed on its own in c12.py)
+                azs[-1] = azs[0]
         if naz > 1 and rng.random() < 0.3:      # an azimuthal object assembled by hand: the azimuths need not be ascending
-            azs = [azs[j] for j in rng.permutation(naz)]
+            perm = [azs[j] for j in rng.permutation(naz)]
+            if all(a != b for a, b in zip(perm, perm[1:])):
+                azs = perm
         m = Mirror.az(oid, freq, rows_per_az, azs)
     steps = []
 
@@ -112,6 +122,19 @@ def run_histories(ctx, hists, stat_clause, state_clause, nontrivial_fn=None):
                     mo = hvgen.parse_stats(outs[b + st["stat_idx"][d]])
                     badk, near = hvgen.cmp_stats(st["stats"][d], mo, scale=float(np.max(m.freq)))
                     ctx.near_tie_skipped += len(near)
+                    if st["state"].get("kind") == "A" and badk:
+                        # C11 quantifies over states "with at least one accepted window per azimuth": with an azimuth that has no valid peak (no accepted
+                        # window) the resonance (curve) statistics are outside the property -- the unchanged code raises there, a rewrite may return NaN or a
+                        # number; neither is judged (a false alarm on the neutral seed C11-X of round 9 corrected)
+                        hs_ = st["state"]["hvsrs"]
+                        if any(not any(h_["vpeak"]) for h_ in hs_):
+                            dropped = [x for x in badk if x in ("mf", "sf", "ma", "sa", "nf+", "nf-", "na+", "na-", "cov")]
+                            badk = [x for x in badk if x not in dropped]
+                            ctx.count("out_of_domain:azimuth_without_valid_peak", len(dropped))
+                        if any(not any(h_["vwin"]) for h_ in hs_):
+                            dropped = [x for x in badk if x in ("mc", "sc", "mcp")]
+                            badk = [x for x in badk if x not in dropped]
+                            ctx.count("out_of_domain:azimuth_without_accepted_window", len(dropped))
                     if badk:
                         ctx.violation(stat_clause, dict(case=history_json(h, k), step=k, distribution=d, differing=badk,
                                                         impl={x: st["stats"][d][x] for x in badk}, model={x: mo.get(x) for x in badk}),
